@@ -83,6 +83,17 @@ class Check:
             world["nodes"].append({"path": stem + "10/in10", "type": "file", "content": ""})
             world["nodes"].append({"path": "x" + tops[0], "type": "dir"})
             world["nodes"].append({"path": "x" + tops[0] + "/inx", "type": "file", "content": ""})
+        # the same rows through another output format (its writer sees long rows and multi-byte text in other chunk sizes)
+        fmt = rng.choice([None] * 8 + ["csv", "json"])
+        if rng.random() < (0.3 if fmt else 0.04):
+            # a chain of directories with long (multi-byte) names: rows of 500 .. 1200 bytes
+            base_ = tops[0]
+            for lv in range(rng.choice([2, 3, 4])):
+                ch = rng.choice(["a", "\u00e9", "\u65e5", "\U0001f600", "\u00fc"])
+                nm_ = ch * (rng.randint(120, 240) // len(ch.encode("utf-8")))
+                base_ = base_ + "/" + nm_
+                world["nodes"].append({"path": base_, "type": "dir"})
+                world["nodes"].append({"path": base_ + "/f%d" % lv, "type": "file", "content": "x"})
         dirs = [n["path"] for n in world["nodes"] if n["type"] == "dir"]
         roots = []
         maxlvl = max([n["path"].count("/") for n in world["nodes"]] + [1])
@@ -156,7 +167,7 @@ class Check:
             # the top of the second device is a mount point: its d_ino (in the parent's stream) is the covered directory's number
             st.setdefault(sub, {})["dino"] = rng.choice(pool_all) if pool_all else 777
             plan["stat"] = st
-        return {"world": world, "roots": roots, "rx": rx, "plan": plan, "order_class": cls, "multidev": multidev, "cwd": cwd,
+        return {"world": world, "roots": roots, "rx": rx, "fmt": fmt, "plan": plan, "order_class": cls, "multidev": multidev, "cwd": cwd,
                 "cwd_default": single_default, "select_word": rng.choice(["select ", ""]),
                 # sometimes an attribute column rides along (its per-entry cache must not leak into the walk)
                 "extra_col": rng.choice(["", "", "", "size", "is_dir", "mode", "is_empty"])}
@@ -170,6 +181,10 @@ class Check:
         if case.get("extra_col"):
             c = copy.deepcopy(case)
             c["extra_col"] = ""
+            yield c
+        if case.get("fmt"):
+            c = copy.deepcopy(case)
+            c["fmt"] = None
             yield c
         if case.get("rx"):
             t = case["rx"]["template"]
@@ -245,7 +260,29 @@ class Check:
         q = case.get("select_word", "") + "path" + ((", " + case["extra_col"]) if case.get("extra_col") else "")
         if parts:
             q += " from " + ", ".join(parts)
-        return q + " into list"
+        return q + " into " + (case.get("fmt") or "list")
+
+    @staticmethod
+    def parse_rows(case, res):
+        """First column of every row, as bytes; None when the stream is not well-formed in the requested format."""
+        fmt = case.get("fmt")
+        ncols = 2 if case.get("extra_col") else 1
+        if not fmt:
+            return [r[0] for r in res.rows(ncols)]
+        import csv, io, json
+        try:
+            text = res.stdout.decode("utf-8")
+            if fmt == "csv":
+                recs = list(csv.reader(io.StringIO(text, newline="")))
+                if any(len(r) != ncols for r in recs):
+                    return None
+                return [r[0].encode("utf-8") for r in recs]
+            v = json.loads(text)
+            if not isinstance(v, list) or any(not isinstance(x, dict) or "Path" not in x for x in v):
+                return None
+            return [x["Path"].encode("utf-8") for x in v]
+        except ValueError:
+            return None
 
     @staticmethod
     def mode_of(r, flip):
@@ -291,7 +328,10 @@ class Check:
                     continue
                 q = self.query(case, sb.root, flip)
                 res = sb.run([q], plan=case["plan"], cwd=cwd)
-                rows = [r[0] for r in res.rows(2 if case.get("extra_col") else 1)]
+                rows = self.parse_rows(case, res)
+                if rows is None:
+                    viols.append(Violation(PROP, "C01.set", ["C01.set", "output_not_well_formed:" + case["fmt"], kind], {"query": q, "stdout": res.stdout[:300].decode("utf-8", "replace")}))
+                    continue
                 if len(ctx.samples) < 2:
                     ctx.samples.append({"argv": [q], "cwd": cwd, "outcome": res.summary(), "rows": len(rows)})
                 # expected rows
